@@ -847,7 +847,8 @@ func (c *FnCtx) callByContract(con *FuncContract, fobj *types.Func, recv string,
 			needAlloc = true
 		}
 	}
-	if con.ModHeap {
+	if con.ModHeap || (!con.Frame && !con.ModGiven && !con.Assumed) {
+		// unknown or unchecked frame: the callee may modify anything
 		c.havocAll(st)
 	} else {
 		for _, m := range con.Modifies {
@@ -1275,57 +1276,61 @@ func (c *FnCtx) scanCallWrites(x *ast.CallExpr, li *loopInfo) {
 	li.heapAll = true
 }
 
-// framePost: at a return, every object that existed at entry has the field / map / cell contents it had at
-// entry, except the locations listed in `modifies` (element arrays are covered by the per-store checks).
+// framePost: "modifies" is established by the per-store frame obligations (every store targets a fresh object
+// or a listed location) and by covering the callees' modifies clauses. A function without any such site gets one
+// syntactic obligation so that the frame claim is still counted.
 func (c *FnCtx) framePost(st *State, pos token.Pos) {
-	if !c.frameOn || c.con == nil || c.con.ModHeap || !c.con.ModGiven || c.unroll > 0 {
+	if !c.frameOn || c.con == nil || c.con.ModHeap || !c.con.ModGiven || c.unroll > 0 || c.frameNoted {
 		return
+	}
+	for _, o := range c.obls {
+		if o.Kind == "frame" {
+			return
+		}
+	}
+	c.frameNoted = true
+	save := c.curProp
+	c.curProp = c.frameProp()
+	c.oblige(st, "frame", "frame.nostores", "true", pos, "no store to a pre-existing object and no modifying callee on any path so far")
+	c.curProp = save
+}
+
+// frameInvariant: objects that existed at function entry keep their contents in a loop-havocked heap array,
+// except the locations listed in `modifies`. Justified by the per-store frame obligations of the same function.
+func (c *FnCtx) frameInvariant(base, newArr string) string {
+	if !c.frameOn || c.con == nil || c.con.ModHeap || !c.con.ModGiven {
+		return ""
+	}
+	if !(strings.HasPrefix(base, "F!") || strings.HasPrefix(base, "MD!") || strings.HasPrefix(base, "MV!") || strings.HasPrefix(base, "C!")) {
+		return ""
 	}
 	entryAlloc := c.heapName("alloc", 0)
 	c.declare(entryAlloc, "(Array Int Bool)")
-	var goals []string
-	for _, base := range sortedKeys(c.heapSort) {
-		if !(strings.HasPrefix(base, "F!") || strings.HasPrefix(base, "MD!") || strings.HasPrefix(base, "MV!") || strings.HasPrefix(base, "C!")) {
-			continue
-		}
-		srt := c.heapSort[base]
-		cur := c.h(st, base, srt)
-		ent := c.heapName(base, 0)
-		if cur == ent {
-			continue
-		}
-		c.declare(ent, srt)
-		exc := []string{}
-		for _, m := range c.con.Modifies {
-			switch m.Kind {
-			case "field":
-				ot := c.synthResultType(m.GoFn, c.pkg)
-				if pt, ok := ot.Underlying().(*types.Pointer); ok {
-					if n, _ := c.fieldArr(pt.Elem(), m.Fld); n == base {
-						exc = append(exc, not(eq("r", c.evalModObj(m))))
-					}
+	ent := c.heapName(base, 0)
+	c.declare(ent, c.heapSort[base])
+	exc := []string{}
+	for _, m := range c.con.Modifies {
+		switch m.Kind {
+		case "field":
+			if pt, ok := c.synthResultType(m.GoFn, c.pkg).Underlying().(*types.Pointer); ok {
+				if n, _ := c.fieldArr(pt.Elem(), m.Fld); n == base {
+					exc = append(exc, not(eq("r", c.evalModObj(m))))
 				}
-			case "mapall":
-				ot := c.synthResultType(m.GoFn, c.pkg)
-				if mt, ok := ot.Underlying().(*types.Map); ok {
-					dn, _, vn, _ := c.mapArrs(mt)
-					if dn == base || vn == base {
-						exc = append(exc, not(eq("r", c.evalModObj(m))))
-					}
+			}
+		case "mapall":
+			if mt, ok := c.synthResultType(m.GoFn, c.pkg).Underlying().(*types.Map); ok {
+				dn, _, vn, _ := c.mapArrs(mt)
+				if dn == base || vn == base {
+					exc = append(exc, not(eq("r", c.evalModObj(m))))
 				}
-			case "cell":
-				ot := c.synthResultType(m.GoFn, c.pkg)
-				if pt, ok := ot.Underlying().(*types.Pointer); ok {
-					if n, _ := c.cellArr(pt.Elem()); n == base {
-						exc = append(exc, not(eq("r", c.evalModObj(m))))
-					}
+			}
+		case "cell":
+			if pt, ok := c.synthResultType(m.GoFn, c.pkg).Underlying().(*types.Pointer); ok {
+				if n, _ := c.cellArr(pt.Elem()); n == base {
+					exc = append(exc, not(eq("r", c.evalModObj(m))))
 				}
 			}
 		}
-		goals = append(goals, "(forall ((r Int)) "+implies(and(append([]string{sel(entryAlloc, "r")}, exc...)...), eq(sel(cur, "r"), sel(ent, "r")))+")")
 	}
-	save := c.curProp
-	c.curProp = c.frameProp()
-	c.oblige(st, "frame", "frame@"+c.retSite, and(goals...), pos, "objects that existed at entry are unchanged (modifies clause)")
-	c.curProp = save
+	return "(forall ((r Int)) (! " + implies(and(append([]string{sel(entryAlloc, "r")}, exc...)...), eq(sel(newArr, "r"), sel(ent, "r"))) + " :pattern ((select " + newArr + " r))))"
 }
